@@ -89,9 +89,17 @@ pub fn parse(s: &str) -> Parsed {
         // "", ".", "-", "+"
         return Parsed::Garbage;
     }
-    if fp.len() > 28 {
-        return Parsed::Unclear;
-    }
+    // more than 28 decimals: unambiguous only when the surplus digits are zeros (the value is
+    // then the same number; the library drops them)
+    let fp = if fp.len() > 28 {
+        if fp[28..].bytes().all(|b| b == b'0') && fp.len() <= 40 {
+            &fp[..28]
+        } else {
+            return Parsed::Unclear;
+        }
+    } else {
+        fp
+    };
     let digits: String = format!("{}{}", ip, fp);
     let trimmed = digits.trim_start_matches('0');
     if trimmed.len() > 29 {
